@@ -61,6 +61,27 @@ impl Flavour {
     }
 }
 
+/// Options of the JSON-LD parser for the current run (bit 0: ordered, bit 1: generalized RDF,
+/// bit 2: processing mode 1.0, bit 3: a base IRI). One run at a time per worker process.
+static JSONLD_OPTS: std::sync::atomic::AtomicU8 = std::sync::atomic::AtomicU8::new(0);
+
+fn jsonld_parser() -> sophia_jsonld::JsonLdParser<sophia_jsonld::loader_factory::DefaultLoaderFactory<sophia_jsonld::loader::NoLoader>> {
+    let bits = JSONLD_OPTS.load(std::sync::atomic::Ordering::Relaxed);
+    // (each option set once, in an order that varies with the bits: a builder method that
+    // touches another option's field must not be hidden by the call that follows it)
+    let mut o = sophia_jsonld::JsonLdOptions::new();
+    let mode = if bits & 4 != 0 { sophia_jsonld::ProcessingMode::JsonLd1_0 } else { sophia_jsonld::ProcessingMode::JsonLd1_1 };
+    o = match bits % 3 {
+        0 => o.with_ordered(bits & 1 != 0).with_produce_generalized_rdf(bits & 2 != 0).with_processing_mode(mode),
+        1 => o.with_processing_mode(mode).with_produce_generalized_rdf(bits & 2 != 0).with_ordered(bits & 1 != 0),
+        _ => o.with_produce_generalized_rdf(bits & 2 != 0).with_ordered(bits & 1 != 0).with_processing_mode(mode),
+    };
+    if bits & 8 != 0 {
+        o = o.with_base(Iri::new_unchecked("http://example.org/base/doc".into()));
+    }
+    sophia_jsonld::JsonLdParser::new_with_options(o)
+}
+
 fn parse_with(fl: Flavour, base: Option<&str>, r: SimReader) -> Parsed {
     let b = base.map(|b| Iri::new(b.to_string()).expect("base"));
     match fl {
@@ -84,7 +105,7 @@ fn parse_with(fl: Flavour, base: Option<&str>, r: SimReader) -> Parsed {
             r,
         )),
         Flavour::JsonLd => {
-            let p = sophia_jsonld::JsonLdParser::new();
+            let p = jsonld_parser();
             collect_quads(QuadParser::parse(&p, r))
         }
     }
@@ -137,6 +158,9 @@ const XML_CORPUS: &[&str] = &[
 ];
 
 const JSONLD_CORPUS: &[&str] = &[
+    // blank nodes as properties (only kept when generalized RDF is asked for) and as @vocab
+    "{\"@id\":\"tag:s\",\"_:p\":\"v\",\"_:a:b\":{\"@id\":\"_:o.x\"},\"_:1\":[1,true],\"http://a/p\":{\"@id\":\"_:a:b\"}}",
+    "{\"@context\":{\"@vocab\":\"_:v\"},\"@id\":\"tag:s\",\"term\":\"v\",\"@type\":\"T\"}",
     "{\"@context\":{\"@vocab\":\"http://example.org/ns/\",\"@base\":\"http://example.org/base/\",\"ex\":\"http://example.org/x#\",\"knows\":{\"@type\":\"@id\"},\"l\":{\"@container\":\"@list\"},\"lang\":{\"@container\":\"@language\"},\"idx\":{\"@container\":\"@index\"},\"rev\":{\"@reverse\":\"ex:rev\"},\"j\":{\"@type\":\"@json\"},\"@language\":\"en\",\"@direction\":\"ltr\"},\"@id\":\"#me\",\"@type\":[\"Person\",\"ex:T\"],\"name\":\"Alice\",\"knows\":[\"bob\",{\"@id\":\"_:b1\",\"name\":{\"@value\":\"B\",\"@language\":\"fr\",\"@direction\":\"rtl\"}}],\"l\":[1,2.5,true,null,[\"nested\"]],\"lang\":{\"en\":\"x\",\"de\":[\"y\",\"z\"]},\"idx\":{\"a\":\"b\"},\"rev\":{\"@id\":\"r\"},\"j\":{\"k\":[1,{\"z\":null}]},\"ex:typed\":{\"@value\":\"1\",\"@type\":\"http://www.w3.org/2001/XMLSchema#integer\"},\"@graph\":[{\"@id\":\"g1\",\"ex:p\":{\"@set\":[1,2]}}],\"@included\":[{\"@id\":\"inc\",\"ex:q\":\"v\"}],\"@reverse\":{\"ex:r\":{\"@id\":\"x\"}},\"@nest\":{\"name\":\"N\"}}",
     "[{\"@id\":\"http://a/s\",\"http://a/p\":[{\"@id\":\"http://a/o\"},{\"@value\":\"v\",\"@language\":\"en\"},{\"@list\":[{\"@value\":1},{\"@list\":[]}]}],\"@graph\":[{\"@id\":\"_:b\",\"http://a/q\":[{\"@value\":true}]}]}]",
     "{\"@context\":\"http://example.org/remote-context.jsonld\",\"@id\":\"http://a/s\",\"p\":\"v\"}",
@@ -690,6 +714,13 @@ pub fn run_c08(ctx: &mut Ctx) -> Verdict {
         None
     };
     ctx.sig(fl.name());
+    // JSON-LD parser options: the defaults half of the time
+    let jopts = if fl == Flavour::JsonLd && ctx.tape.flag() { ctx.tape.below(16) as u8 } else { 0 };
+    JSONLD_OPTS.store(jopts, std::sync::atomic::Ordering::Relaxed);
+    if jopts != 0 {
+        ctx.probe("jsonld_parser_non_default_options");
+        ctx.sig_u(u64::from(jopts));
+    }
     let (mut doc, origin, depth) = base_document2(ctx, fl, hs);
     ctx.probe(match origin {
         "serialized" => "doc_from_real_serializer",
@@ -707,8 +738,14 @@ pub fn run_c08(ctx: &mut Ctx) -> Verdict {
         ctx.fault_in_op = true;
     }
     let n_corruptions = ctx.faults.len() - before;
+    let generalized_asked = jopts & 2 != 0;
+    let jopts_txt = if fl == Flavour::JsonLd {
+        format!(" ordered={} generalized={} mode={} base={}", jopts & 1 != 0, generalized_asked, if jopts & 4 != 0 { "1.0" } else { "1.1" }, jopts & 8 != 0)
+    } else {
+        String::new()
+    };
     simcore::driver::set_panic_context(&format!(
-        "parser={} origin={origin} {}",
+        "parser={}{jopts_txt} origin={origin} {}",
         fl.name(),
         if n_corruptions == 0 && matches!(origin, "serialized" | "corpus" | "iri_stress") { "doc=valid" } else { "doc=hostile" }
     ));
@@ -750,12 +787,21 @@ pub fn run_c08(ctx: &mut Ctx) -> Verdict {
             format!("parser reported a SinkError although the consumer cannot fail: {e}"),
         ));
     }
+    if fl == Flavour::JsonLd && !generalized_asked {
+        // without produce_generalized_rdf the JSON-LD parser is a strict one
+        if let Some(q) = p0.items.iter().find(|q| !matches!(q.0[1], MTerm::Iri(_)) || !matches!(q.0[0], MTerm::Iri(_) | MTerm::Bnode(_))) {
+            return Err(Violation::new(
+                "generalized_statement_not_asked_for/jsonld",
+                format!("JSON-LD parser [{}] yielded a generalized statement: {}\nstored bytes:\n{}", jopts_txt.trim(), fmt_quad(q), excerpt(&doc)),
+            ));
+        }
+    }
     let bad = validate_items(fl, &p0.items);
     if !bad.is_empty() {
         return Err(Violation::new(
             format!("invalid_term_yielded/{}", fl.name()),
             format!(
-                "{} [{}]\nstored bytes:\n{}",
+                "{}{jopts_txt} [{}]\nstored bytes:\n{}",
                 bad.join("\n"),
                 if n_corruptions == 0 && matches!(origin, "serialized" | "corpus" | "iri_stress") { "doc=valid" } else { "doc=hostile" },
                 excerpt(&doc)
@@ -814,6 +860,7 @@ pub fn enum_count() -> u64 {
 }
 
 pub fn run_enum(ctx: &mut Ctx, case: u64) -> Verdict {
+    JSONLD_OPTS.store(0, std::sync::atomic::Ordering::Relaxed);
     let table = enum_table();
     let k = table.partition_point(|e| e.2 <= case) - 1;
     let (fl, di, first) = table[k];
